@@ -27,6 +27,7 @@ type c08Batch struct {
 	churn   int    // 1 = delete the grandchild GK (edge K1>GK), 2 = restore it
 	parent  string // edge batches: the parent of the edge written ("" = the instance root)
 	refused bool   // a batch the store must refuse (NaN value): nobody may be told of it
+	dupTie  bool   // the batch carries one identity twice with the same timestamp (the later point of the batch is the one that counts)
 }
 
 func c08Alphabet() []c08Batch {
@@ -36,7 +37,7 @@ func c08Alphabet() []c08Batch {
 			o, tg := origin, target
 			out = append(out, c08Batch{o, tg, false, func(m float64) data.Points {
 				return data.Points{{Type: "value", Value: m, Origin: o}}
-			}, fmt.Sprintf("value on %s by %q", tg, o), 0, "", false})
+			}, fmt.Sprintf("value on %s by %q", tg, o), 0, "", false, false})
 		}
 	}
 	// two-point batches and other fields, by a foreign author and by the client itself
@@ -44,20 +45,27 @@ func c08Alphabet() []c08Batch {
 		o := origin
 		out = append(out, c08Batch{o, "N1", false, func(m float64) data.Points {
 			return data.Points{{Type: "description", Text: fmt.Sprintf("d%v", m), Origin: o}, {Type: "arr", Key: "1", Value: m, Origin: o}}
-		}, fmt.Sprintf("description+arr[1] on N1 by %q", o), 0, "", false})
+		}, fmt.Sprintf("description+arr[1] on N1 by %q", o), 0, "", false, false})
 		out = append(out, c08Batch{o, "K1", false, func(m float64) data.Points {
 			return data.Points{{Type: "description", Text: fmt.Sprintf("k%v", m), Origin: o}, {Type: "value", Value: m, Origin: o}}
-		}, fmt.Sprintf("description+value on K1 by %q", o), 0, "", false})
+		}, fmt.Sprintf("description+value on K1 by %q", o), 0, "", false, false})
 	}
 	out = append(out, c08Batch{"other", "N1", true, func(m float64) data.Points {
 		return data.Points{{Type: "role", Text: fmt.Sprintf("r%v", m), Origin: "other"}}
-	}, `edge point role on N1 by "other"`, 0, "", false})
+	}, `edge point role on N1 by "other"`, 0, "", false, false})
 	// batches the store refuses (a NaN value next to a regular point): a refused write is not a change
 	for _, tg := range []string{"N1", "K1"} {
 		tg := tg
 		out = append(out, c08Batch{origin: "other", target: tg, refused: true, pts: func(m float64) data.Points {
 			return data.Points{{Type: "value", Value: m, Origin: "other"}, {Type: "broken", Value: math.NaN(), Origin: "other"}}
 		}, name: fmt.Sprintf("value + NaN on %s by \"other\" (must be refused)", tg)})
+	}
+	// one identity twice in one batch, both with the same timestamp (two samples taken in the same instant): store and client must agree on which one counts
+	for _, tg := range []string{"N1", "K1"} {
+		tg := tg
+		out = append(out, c08Batch{origin: "other", target: tg, dupTie: true, pts: func(m float64) data.Points {
+			return data.Points{{Type: "value", Value: m, Origin: "other"}, {Type: "value", Value: m + 0.5, Origin: "other"}}
+		}, name: fmt.Sprintf("value twice with one timestamp on %s by \"other\"", tg)})
 	}
 	// an edge point (not a tombstone) on the edge between the client's node and its child, and one level further down
 	out = append(out, c08Batch{origin: "other", target: "K1", edge: true, parent: "N1", pts: func(m float64) data.Points {
@@ -201,6 +209,9 @@ func c08Body(t *testing.T, depth int, order bool, churn ...bool) mc.Body {
 							pts[i].Time = g.tick()
 						}
 						lastTimes[id] = pts[i].Time
+					}
+					if b.dupTie {
+						pts[1].Time = pts[0].Time
 					}
 					if b.churn != 0 {
 						return client.SendEdgePoints(g.inst.Nc, "GK", "K1", pts, true)
@@ -396,7 +407,7 @@ func TestC08(t *testing.T) {
 			depth = 3
 		}
 		r.Explore(mc.Config{Name: fmt.Sprintf("batch-sequences-d%d", depth), Serial: true, SplitDepth: 1, SelfCheckEvery: 53,
-			Rule: fmt.Sprintf("all sequences of %d batches over a 31-batch alphabet: author in {\"\", the client's id, a child's id, a sibling client's id, another party} x target in {client node, child, grand-child, unrelated sibling}, one- and two-point batches, batches the store refuses (NaN), edge-point batches on the client node's own edge, on the edge to its child and on the edge to its grand-child; each batch carries one origin and a unique marker, and its points are either later than everything before or carry exactly the time of the newest point of their identity (a tie); the client either prompt or busy for 150 ms (longer than the quiescence window) during its first Points call; Points/EdgePoints callbacks of the instrumented client compared with the accepted history (told exactly once and in order for foreign changes in the subtree, never for its own), and the folded configuration compared with Decode of the store's node", depth)},
+			Rule: fmt.Sprintf("all sequences of %d batches over a 33-batch alphabet: author in {\"\", the client's id, a child's id, a sibling client's id, another party} x target in {client node, child, grand-child, unrelated sibling}, one- and two-point batches, batches the store refuses (NaN), batches that carry one identity twice with the same timestamp, edge-point batches on the client node's own edge, on the edge to its child and on the edge to its grand-child; each batch carries one origin and a unique marker, and its points are either later than everything before or carry exactly the time of the newest point of their identity (a tie); the client either prompt or busy for 150 ms (longer than the quiescence window) during its first Points call; Points/EdgePoints callbacks of the instrumented client compared with the accepted history (told exactly once and in order for foreign changes in the subtree, never for its own), and the folded configuration compared with Decode of the store's node", depth)},
 			c08Body(t, depth, false))
 		r.Explore(mc.Config{Name: "delivery-order-d2", Serial: true, SplitDepth: 1, DevBound: 1,
 			Rule: "the same alphabet, sequences of 2 batches, with one scheduling deviation (another pending delivery first, or the second batch written before the system is quiescent)"},
